@@ -599,7 +599,7 @@ func checkC08() fw.Check {
 			}
 			n := 60
 			if tier == "thorough" {
-				n = 1200
+				n = 3000
 			}
 			for i := 0; i < n; i++ {
 				cases = append(cases, fw.Case{ID: fmt.Sprintf("C08/publicip/%d", i), Bubble: true, Run: func(c *fw.Ctx) { runC08PublicIP(c, c.ID, c.Rng) }})
